@@ -125,23 +125,23 @@ def check_patch_conistency(catalog: Catalog, *catalogs: Catalog, rtol: float = 0
             raise InconsistentPatchesError("patch centers are not aligned")
 
 
-def get_max_angle(
-    config: Configuration, redshift_limit: float = 0.05
-) -> AngularDistances:
+def get_max_angle(config: Configuration) -> AngularDistances:
     """
     Compute the maximum angular pair separation to expect in a correlation
     measurement.
 
     Used to determine which patch pairs need to be run through the pair counting
-    function. The distance is computed from the cosmological model with the
-    largest configured scale. The redshift is either the lowest redshift bin
-    center or a lower bound of ``redshift_limit``.
+    function. The angle is the largest one that any of the configured scales
+    subtends at any of the redshift bin centers (at which pairs are counted),
+    computed from the cosmological model.
     """
-    min_redshift = max(config.binning.zmin, redshift_limit)
-    _, ang_max = config.scales.scales.get_angle_radian(
-        min_redshift, cosmology=config.cosmology
-    )
-    return AngularDistances(ang_max.max())
+    ang_max = 0.0
+    for redshift in config.binning.binning.mids:
+        _, ang_max_bin = config.scales.scales.get_angle_radian(
+            redshift, cosmology=config.cosmology
+        )
+        ang_max = max(ang_max, ang_max_bin.max())
+    return AngularDistances(ang_max)
 
 
 class PatchLinkage:
